@@ -26,7 +26,34 @@ def add_logging(src):
     ast.fix_missing_locations(t)
     out = ast.unparse(t) + "\n"; compile(out, "f", "exec"); return out
 
-X = {"invert": invert_ifs, "logging": add_logging}
+def swap_adjacent(src):
+    """Swap adjacent simple assignments `a = e1; b = e2` when neither reads or writes a name of the other and neither contains a call."""
+    t = ast.parse(src)
+    def names(n, ctxs):
+        return {x.id for x in ast.walk(n) if isinstance(x, ast.Name) and isinstance(x.ctx, ctxs)}
+    def simple(st):
+        return isinstance(st, ast.Assign) and len(st.targets) == 1 and isinstance(st.targets[0], ast.Name) and not any(isinstance(x, (ast.Call, ast.Attribute, ast.Subscript, ast.Yield, ast.Await)) for x in ast.walk(st.value))
+    cnt = 0
+    for n in ast.walk(t):
+        for field in ("body", "orelse", "finalbody"):
+            b = getattr(n, field, None)
+            if not isinstance(b, list):
+                continue
+            i = 0
+            while i + 1 < len(b):
+                a, c = b[i], b[i + 1]
+                if simple(a) and simple(c):
+                    wa, wc = {a.targets[0].id}, {c.targets[0].id}
+                    ra, rc = names(a.value, ast.Load), names(c.value, ast.Load)
+                    if not (wa & (wc | rc)) and not (wc & ra):
+                        b[i], b[i + 1] = c, a
+                        cnt += 1
+                        i += 2
+                        continue
+                i += 1
+    out = ast.unparse(t) + "\n"; compile(out, "f", "exec"); return out
+
+X = {"invert": invert_ifs, "logging": add_logging, "swap": swap_adjacent}
 which = sys.argv[1]
 base = Tree('/repo'); ov = {rel: X[which](m.src) for rel, m in base.modules.items()}
 props = sys.argv[2:] or "C03 C04 C05 C06 C07 C08 C09 C11 C12 C13 C14 C15 C16 C17 C18 C19 C20".split()
